@@ -45,6 +45,7 @@ enum V {
     Text(String),
     Arr(Vec<String>),
     ArrI(Vec<i64>),
+    Vec(Vec<i64>),
 }
 
 impl V {
@@ -55,6 +56,7 @@ impl V {
             V::Text(s) => Fv::Text(s.clone()),
             V::Arr(l) => Fv::Array(l.iter().map(|s| Fv::Text(s.clone())).collect()),
             V::ArrI(l) => Fv::Array(l.iter().map(|i| Fv::U64(*i as u64)).collect()),
+            V::Vec(l) => Fv::Vector(l.iter().map(|i| anda_db::schema::bf16::from_f32(*i as f32)).collect()),
         }
     }
     fn from_fv(fv: Option<&Fv>) -> V {
@@ -70,6 +72,7 @@ impl V {
                     V::ArrI(l.iter().map(|x| if let Fv::U64(u) = x { *u as i64 } else { -1 }).collect())
                 }
             }
+            Some(Fv::Vector(v)) => V::Vec(v.iter().map(|x| x.to_f32() as i64).collect()),
             Some(other) => V::Text(format!("?{other:?}")),
         }
     }
@@ -79,7 +82,7 @@ impl V {
             V::Int(i) => ctor("VS", vec![ctor("SInt", vec![json!(i)])]),
             V::Text(s) => ctor("VS", vec![ctor("SText", vec![json!(s)])]),
             V::Arr(l) => ctor("VArr", vec![Value::Array(l.iter().map(|s| ctor("SText", vec![json!(s)])).collect())]),
-            V::ArrI(l) => ctor("VArr", vec![Value::Array(l.iter().map(|i| ctor("SInt", vec![json!(i)])).collect())]),
+            V::ArrI(l) | V::Vec(l) => ctor("VArr", vec![Value::Array(l.iter().map(|i| ctor("SInt", vec![json!(i)])).collect())]),
         }
     }
 }
@@ -117,6 +120,7 @@ enum Ty {
     Int,
     Text,
     ArrText,
+    Vector,
 }
 #[derive(Clone, Debug)]
 struct FieldSpec {
@@ -129,6 +133,8 @@ struct FieldSpec {
 struct Spec {
     fields: Vec<FieldSpec>,
     indexes: Vec<Vec<&'static str>>, // creation order
+    /// oracle-only shape: an extra vector field, a BM25 index on `note` and an HNSW index on `vec` (not in the Coq model)
+    aux: bool,
 }
 
 impl Spec {
@@ -139,6 +145,7 @@ impl Spec {
                 Ty::Int => FieldType::U64,
                 Ty::Text => FieldType::Text,
                 Ty::ArrText => FieldType::Array(vec![FieldType::Text]),
+                Ty::Vector => FieldType::Vector,
             };
             let ft = if f.opt { FieldType::Option(Box::new(base)) } else { base };
             let mut e = FieldEntry::new(f.name.to_string(), ft).unwrap();
@@ -158,7 +165,7 @@ impl Spec {
                     "mkField",
                     vec![
                         json!(f.name),
-                        ctor(match f.ty { Ty::Int => "TInt", Ty::Text => "TText", Ty::ArrText => "TArrText" }, vec![]),
+                        ctor(match f.ty { Ty::Int => "TInt", Ty::Text => "TText", Ty::ArrText => "TArrText", Ty::Vector => "TArrInt" }, vec![]),
                         json!(f.opt),
                         json!(f.unique),
                     ],
@@ -174,8 +181,8 @@ impl Spec {
     }
 }
 
-fn gen_spec(rng: &mut Rng) -> Spec {
-    let fields = vec![
+fn gen_spec(rng: &mut Rng, aux: bool) -> Spec {
+    let mut fields = vec![
         FieldSpec { name: "email", ty: Ty::Text, opt: rng.chance(1, 3), unique: true },
         FieldSpec { name: "tags", ty: Ty::ArrText, opt: true, unique: true },
         FieldSpec { name: "a", ty: Ty::Int, opt: false, unique: false },
@@ -193,7 +200,10 @@ fn gen_spec(rng: &mut Rng) -> Spec {
             indexes.push(c);
         }
     }
-    Spec { fields, indexes }
+    if aux {
+        fields.push(FieldSpec { name: "vec", ty: Ty::Vector, opt: false, unique: false }); // HNSW needs a plain Vector field
+    }
+    Spec { fields, indexes, aux }
 }
 
 type Fields = BTreeMap<String, V>;
@@ -291,6 +301,7 @@ fn classify(err: &DBError) -> &'static str {
         DBError::AlreadyExists { .. } => "EUnique",
         DBError::Schema { source, .. } => classify_schema_msg(&source.to_string()),
         DBError::Generic { source, .. } if source.to_string().contains("No fields to update") => "EEmpty",
+        DBError::Index { .. } => "EIndex",
         _ => "EStorage",
     }
 }
@@ -366,7 +377,16 @@ fn gen_value(rng: &mut Rng, name: &str, for_update: bool) -> Option<V> {
     }
 }
 
-fn gen_op(rng: &mut Rng, live: &[u64], next: u64) -> Op {
+const VECS: [[i64; 4]; 4] = [[1, 0, 0, 0], [0, 1, 0, 0], [0, 0, 1, 0], [1, 1, 0, 0]];
+fn gen_vec(rng: &mut Rng, for_update: bool) -> Option<V> {
+    match rng.below(100) {
+        0..=5 => if for_update { Some(V::Null) } else { None },
+        6..=16 => Some(V::Vec(vec![1, 2])), // wrong dimension: the HNSW insert fails after the B-tree/BM25 inserts
+        _ => Some(V::Vec(rng.pick(&VECS).to_vec())),
+    }
+}
+
+fn gen_op(rng: &mut Rng, live: &[u64], next: u64, aux: bool) -> Op {
     let pick_id = |rng: &mut Rng| -> u64 {
         if !live.is_empty() && rng.chance(85, 100) { *rng.pick(live) } else { 1 + rng.below(next + 2) }
     };
@@ -380,6 +400,11 @@ fn gen_op(rng: &mut Rng, live: &[u64], next: u64) -> Op {
         }
         if rng.chance(4, 100) {
             f.insert("zzz".to_string(), V::Text("u".into()));
+        }
+        if aux {
+            if let Some(v) = gen_vec(rng, false) {
+                f.insert("vec".to_string(), v);
+            }
         }
         Op::Add(f)
     } else if k < 82 {
@@ -396,6 +421,11 @@ fn gen_op(rng: &mut Rng, live: &[u64], next: u64) -> Op {
             if rng.chance(4, 100) {
                 f.insert(if rng.chance(1, 2) { "zzz" } else { "aaa" }.to_string(), V::Text("u".into()));
             }
+            if aux && rng.chance(1, 2) {
+                if let Some(v) = gen_vec(rng, true) {
+                    f.insert("vec".to_string(), v);
+                }
+            }
         }
         Op::Update(id, f)
     } else {
@@ -408,6 +438,7 @@ struct YieldStore {
     inner: Arc<InMemory>,
     rng: Arc<Mutex<Rng>>,
     max_yields: u64,
+    park: Option<Arc<Sched>>,
 }
 impl std::fmt::Debug for YieldStore {
     fn fmt(&self, f: &mut std::fmt::Formatter<'_>) -> std::fmt::Result {
@@ -419,8 +450,39 @@ impl std::fmt::Display for YieldStore {
         f.write_str("YieldStore")
     }
 }
+tokio::task_local! { static TASK_ID: usize; }
+
+/// Parked backend: every backend call of a contender waits until the explorer releases it.
+#[derive(Default)]
+struct Sched {
+    waiting: Mutex<Vec<(usize, tokio::sync::oneshot::Sender<()>)>>,
+}
+impl Sched {
+    async fn park(&self) {
+        let Ok(t) = TASK_ID.try_with(|t| *t) else { return }; // setup / read-back: not a contender
+        let (tx, rx) = tokio::sync::oneshot::channel();
+        self.waiting.lock().unwrap().push((t, tx));
+        let _ = rx.await;
+    }
+    fn parked(&self) -> Vec<usize> {
+        let mut v: Vec<usize> = self.waiting.lock().unwrap().iter().map(|(t, _)| *t).collect();
+        v.sort();
+        v
+    }
+    fn release(&self, task: usize) {
+        let mut w = self.waiting.lock().unwrap();
+        if let Some(i) = w.iter().position(|(t, _)| *t == task) {
+            let (_, tx) = w.remove(i);
+            let _ = tx.send(());
+        }
+    }
+}
+
 impl YieldStore {
     async fn pause(&self) {
+        if self.park.is_some() {
+            return;
+        }
         let n = { let mut r = self.rng.lock().unwrap(); if self.max_yields == 0 { 0 } else { r.below(self.max_yields + 1) } };
         for _ in 0..n {
             tokio::task::yield_now().await;
@@ -430,6 +492,7 @@ impl YieldStore {
 #[async_trait]
 impl ObjectStore for YieldStore {
     async fn put_opts(&self, location: &Path, payload: PutPayload, opts: PutOptions) -> OsResult<PutResult> {
+        if let Some(p) = &self.park { p.park().await; }
         self.pause().await;
         let r = self.inner.put_opts(location, payload, opts).await;
         self.pause().await;
@@ -439,6 +502,7 @@ impl ObjectStore for YieldStore {
         self.inner.put_multipart_opts(location, opts).await
     }
     async fn get_opts(&self, location: &Path, options: GetOptions) -> OsResult<GetResult> {
+        if let Some(p) = &self.park { p.park().await; }
         self.pause().await;
         let r = self.inner.get_opts(location, options).await;
         self.pause().await;
@@ -446,11 +510,14 @@ impl ObjectStore for YieldStore {
     }
     fn delete_stream(&self, locations: BoxStream<'static, OsResult<Path>>) -> BoxStream<'static, OsResult<Path>> {
         let inner = self.inner.clone();
+        let park = self.park.clone();
         locations
             .then(move |location| {
                 let inner = inner.clone();
+                let park = park.clone();
                 async move {
                     let location = location?;
+                    if let Some(p) = &park { p.park().await; }
                     tokio::task::yield_now().await;
                     inner.delete(&location).await?;
                     Ok(location)
@@ -486,6 +553,7 @@ async fn new_collection(spec: &Spec, store: Arc<dyn ObjectStore>) -> (AndaDB, Ar
     .await
     .expect("db");
     let idx = spec.indexes.clone();
+    let aux = spec.aux;
     let coll = db
         .open_or_create_collection(
             spec.schema(),
@@ -493,6 +561,10 @@ async fn new_collection(spec: &Spec, store: Arc<dyn ObjectStore>) -> (AndaDB, Ar
             async move |c: &mut Collection| {
                 for fs in &idx {
                     c.create_btree_index_nx(fs).await?;
+                }
+                if aux {
+                    c.create_bm25_index_nx(&["note"]).await?;
+                    c.create_hnsw_index_nx("vec", anda_db::index::HnswConfig { dimension: 4, ..Default::default() }).await?;
                 }
                 Ok(())
             },
@@ -544,6 +616,9 @@ struct Snap {
     raw: Vec<Vec<u64>>,
     poisoned: bool,
     errors: Vec<String>,
+    bm25: Vec<Vec<u64>>,
+    hnsw_n: u64,
+    hnsw_ids: Vec<u64>,
 }
 
 async fn snapshot(spec: &Spec, coll: &Collection, uni: &[(usize, Key)]) -> Snap {
@@ -587,7 +662,36 @@ async fn snapshot(spec: &Spec, coll: &Collection, uni: &[(usize, Key)]) -> Snap 
             }
         }
     }
-    Snap { ids, docs, look, raw, poisoned: coll.is_poisoned(), errors }
+    let mut bm25 = Vec::new();
+    let mut hnsw_n = 0;
+    let mut hnsw_ids = Vec::new();
+    if spec.aux {
+        match coll.get_bm25_index(&["note"]) {
+            Ok(view) => {
+                for t in ["n0", "n1", "n2"] {
+                    let mut v: Vec<u64> = view.search(t, 10_000, None).into_iter().map(|(i, _)| i).collect();
+                    v.sort();
+                    bm25.push(v);
+                }
+            }
+            Err(e) => errors.push(format!("bm25 view: {e:?}")),
+        }
+        match coll.get_hnsw_index("vec") {
+            Ok(view) => {
+                hnsw_n = view.stats().num_elements;
+                let mut all = BTreeSet::new();
+                for q in VECS.iter() {
+                    let qf: Vec<f32> = q.iter().map(|x| *x as f32).collect();
+                    for (i, _) in view.search(&qf, 1000) {
+                        all.insert(i);
+                    }
+                }
+                hnsw_ids = all.into_iter().collect();
+            }
+            Err(e) => errors.push(format!("hnsw view: {e:?}")),
+        }
+    }
+    Snap { ids, docs, look, raw, poisoned: coll.is_poisoned(), errors, bm25, hnsw_n, hnsw_ids }
 }
 
 fn norm(spec: &Spec, f: &Fields) -> Vec<V> {
@@ -622,6 +726,21 @@ fn check_snapshot(spec: &Spec, uni: &[(usize, Key)], snap: &Snap, copy: &BTreeMa
         }
         if spec.is_unique(*j) && snap.raw[n].len() > 1 {
             bad.push(format!("U: unique index {:?} key {:?} has owners {:?}", spec.indexes[*j], k, snap.raw[n]));
+        }
+    }
+    if spec.aux {
+        for (n, t) in ["n0", "n1", "n2"].iter().enumerate() {
+            let want: Vec<u64> = copy.iter().filter(|(_, f)| f.get("note") == Some(&V::Text(t.to_string()))).map(|(i, _)| *i).collect();
+            if snap.bm25.get(n) != Some(&want) {
+                bad.push(format!("C: BM25 index [note] term {t}: search {:?} != derived {:?}", snap.bm25.get(n), want));
+            }
+        }
+        let want: Vec<u64> = copy.iter().filter(|(_, f)| matches!(f.get("vec"), Some(V::Vec(v)) if v.len() == 4)).map(|(i, _)| *i).collect();
+        if snap.hnsw_n != want.len() as u64 {
+            bad.push(format!("C: HNSW index [vec] holds {} elements, documents derive {:?}", snap.hnsw_n, want));
+        }
+        if !snap.hnsw_ids.iter().all(|i| want.contains(i)) {
+            bad.push(format!("C: HNSW index [vec] returns ids {:?} not all in derived {:?}", snap.hnsw_ids, want));
         }
     }
     bad
@@ -669,9 +788,11 @@ async fn run_seq(args: &[String], out: &mut dyn Write) {
     let mut lens: BTreeMap<usize, usize> = BTreeMap::new();
     let mut nix: BTreeMap<usize, usize> = BTreeMap::new();
     let mut probes = 0usize;
+    let mut aux_cases = 0usize;
     let mut rejected_checks = 0usize;
     for case in 0..cases {
-        let spec = gen_spec(&mut rng);
+        let aux = case % 4 == 3;
+        let spec = gen_spec(&mut rng, aux);
         let uni = universe(&spec);
         let faulty = rng.chance(1, 4);
         let (fstore, fhandle): (FaultStore<InMemory>, FaultHandle) = FaultStore::wrap(InMemory::new());
@@ -698,7 +819,7 @@ async fn run_seq(args: &[String], out: &mut dyn Write) {
         };
         for _ in 0..len {
             let live: Vec<u64> = copy.keys().cloned().collect();
-            let op = gen_op(&mut rng, &live, next);
+            let op = gen_op(&mut rng, &live, next, aux);
             // storage fault on the document write of this operation (only in "faulty" histories)
             let fault: Option<bool> = if faulty && rng.chance(1, 7) { Some(!rng.chance(1, 3)) } else { None };
             if let Some(cleanup_ok) = fault {
@@ -752,6 +873,11 @@ async fn run_seq(args: &[String], out: &mut dyn Write) {
         }
         *lens.entry(ops.len() / 10 * 10).or_default() += 1;
         let (st, ix) = spec.term();
+        if aux {
+            aux_cases += 1;
+            let _ = db.close().await;
+            continue; // oracle only: BM25 / HNSW are not in the Coq model
+        }
         let line = json!({"kind": "model",
             "case": tup(vec![st, ix, Value::Array(ops.iter().zip(faults.iter()).map(|(o, f)| o.term(*f)).collect())]),
             "obs": snap_term(&spec, &uni, &results, &prev)});
@@ -794,7 +920,7 @@ async fn run_seq(args: &[String], out: &mut dyn Write) {
     }
     let summary = json!({"kind": "summary", "cases": cases, "evaluations": evaluations, "oracle_failures": n_fail,
         "failures": failures, "op_outcomes": kinds, "history_lengths": lens, "indexes_per_schema": nix,
-        "rejected_noop_checks": rejected_checks, "insertable_probes": probes});
+        "rejected_noop_checks": rejected_checks, "insertable_probes": probes, "aux_cases_bm25_hnsw_oracle_only": aux_cases});
     writeln!(out, "{summary}").unwrap();
 }
 
@@ -816,12 +942,14 @@ async fn conc_round(rng: &mut Rng, multi: bool, wide: bool, round: usize) -> (Va
             FieldSpec { name: "note", ty: Ty::Text, opt: true, unique: false },
         ],
         indexes: vec![vec!["grp"], vec!["email"], vec!["a", "b"], vec!["tags"]],
+        aux: false,
     };
     let mut uni = universe(&spec);
     let store: Arc<dyn ObjectStore> = Arc::new(YieldStore {
         inner: Arc::new(InMemory::new()),
         rng: Arc::new(Mutex::new(rng.fork())),
         max_yields: if multi { 1 } else { 3 },
+        park: None,
     });
     let (db, coll) = new_collection(&spec, store).await;
     let mut copy: BTreeMap<u64, Fields> = BTreeMap::new();
@@ -993,6 +1121,305 @@ fn run_conc(args: &[String], out: &mut dyn Write) {
     writeln!(out, "{summary}").unwrap();
 }
 
+
+// ------------------------------------------------------------------------------------------ crash
+/// One deterministic C04 workload (mixed accepted/rejected writes, a flush every few operations) on `store`.
+/// Stops at the first storage error (the simulated power failure). Returns (mutations after setup, versions every
+/// id may legally hold after a crash, the last id handed out).
+async fn crash_workload(
+    spec: &Spec,
+    store: Arc<dyn ObjectStore>,
+    handle: &FaultHandle,
+    seed: u64,
+    len: usize,
+) -> (u64, BTreeMap<u64, Vec<Vec<V>>>, Vec<String>) {
+    let mut rng = Rng::new(seed);
+    let mut versions: BTreeMap<u64, Vec<Vec<V>>> = BTreeMap::new();
+    let mut trace = Vec::new();
+    let opened = AssertUnwindSafe(async {
+        let db = AndaDB::connect(store, DBConfig {
+            name: "c04".to_string(), description: "verif C04".to_string(),
+            storage: StorageConfig { compress_level: 0, ..Default::default() }, lock: None,
+        }).await?;
+        let idx = spec.indexes.clone();
+        let coll = db.open_or_create_collection(spec.schema(),
+            CollectionConfig { name: "c".to_string(), description: "verif C04".to_string() },
+            async move |c: &mut Collection| { for fs in &idx { c.create_btree_index_nx(fs).await?; } Ok(()) }).await?;
+        Ok::<_, DBError>((db, coll))
+    }).catch_unwind().await;
+    let (db, coll) = match opened { Ok(Ok(x)) => x, _ => return (u64::MAX, versions, trace) };
+    let _ = coll.flush(anda_db::unix_ms()).await;
+    let setup = handle.mutation_count();
+    let mut copy: BTreeMap<u64, Fields> = BTreeMap::new();
+    let mut next = 0u64;
+    for n in 0..len {
+        let live: Vec<u64> = copy.keys().cloned().collect();
+        let op = gen_op(&mut rng, &live, next, false);
+        let res = match AssertUnwindSafe(apply(&coll, &op)).catch_unwind().await { Ok(r) => r, Err(_) => Res::Err("EPanic") };
+        trace.push(format!("{op:?} => {res:?}"));
+        if let Res::Id(id) = res { next = next.max(id); }
+        if res == Res::Err("EStorage") || res == Res::Err("EPanic") {
+            // the in-flight operation may or may not have reached the store
+            match &op {
+                Op::Add(f) => versions.entry(next + 1).or_default().push(norm(spec, f)),
+                Op::Update(id, f) => if let Some(d) = copy.get(id) { let mut m = d.clone(); for (k, v) in f { m.insert(k.clone(), v.clone()); } versions.entry(*id).or_default().push(norm(spec, &m)); },
+                Op::Remove(_) => {}
+            }
+            break;
+        }
+        apply_copy(&mut copy, &op, &res);
+        match (&op, &res) {
+            (Op::Add(_), Res::Id(id)) => versions.entry(*id).or_default().push(norm(spec, &copy[id])),
+            (Op::Update(id, _), Res::Ok) => versions.entry(*id).or_default().push(norm(spec, &copy[id])),
+            _ => {}
+        }
+        if n % 5 == 4 {
+            if coll.flush(anda_db::unix_ms()).await.is_err() { trace.push("flush => Err".into()); break; }
+        }
+    }
+    std::mem::forget(db); // the process dies: no close, no final flush
+    (setup, versions, trace)
+}
+
+async fn run_crash(args: &[String], out: &mut dyn Write) {
+    let cases = arg_value(args, "--cases").and_then(|s| s.parse().ok()).unwrap_or(6usize);
+    let points = arg_value(args, "--points").and_then(|s| s.parse().ok()).unwrap_or(10u64); // 0 = every crash point
+    let len = arg_value(args, "--len").and_then(|s| s.parse().ok()).unwrap_or(24usize);
+    let mut rng = Rng::from_env();
+    let mut failures: Vec<Value> = Vec::new();
+    let (mut n_fail, mut evaluations, mut recoveries, mut total_points) = (0usize, 0usize, 0usize, 0u64);
+    for case in 0..cases {
+        let spec = gen_spec(&mut rng, false);
+        let uni = universe(&spec);
+        let seed = rng.next();
+        // dry run: how many backend mutations does the workload make
+        let (fs0, h0) = FaultStore::wrap(InMemory::new());
+        let (setup, _, _) = crash_workload(&spec, Arc::new(fs0), &h0, seed, len).await;
+        let total = h0.mutation_count();
+        let span = total.saturating_sub(setup);
+        let ks: Vec<u64> = if points == 0 || span <= points { (1..=span).collect() }
+            else { let mut v: Vec<u64> = (0..points).map(|i| 1 + i * span / points).collect(); v.push(1 + rng.below(span)); v.sort(); v.dedup(); v };
+        total_points += span;
+        for k in ks {
+            let (fs, h) = FaultStore::wrap(InMemory::new());
+            let store: Arc<dyn ObjectStore> = Arc::new(fs);
+            h.crash_after_mutations(setup + k);
+            let (_, versions, trace) = crash_workload(&spec, store.clone(), &h, seed, len).await;
+            h.reset(); // reboot
+            let mut bad: Vec<String> = Vec::new();
+            let reopened = AssertUnwindSafe(async {
+                let db = AndaDB::connect(store.clone(), DBConfig {
+                    name: "c04".to_string(), description: "verif C04".to_string(),
+                    storage: StorageConfig { compress_level: 0, ..Default::default() }, lock: None,
+                }).await?;
+                let idx = spec.indexes.clone();
+                let coll = db.open_or_create_collection(spec.schema(),
+                    CollectionConfig { name: "c".to_string(), description: "verif C04".to_string() },
+                    async move |c: &mut Collection| { for fs in &idx { c.create_btree_index_nx(fs).await?; } Ok(()) }).await?;
+                Ok::<_, DBError>((db, coll))
+            }).catch_unwind().await;
+            match reopened {
+                Ok(Ok((db, coll))) => {
+                    recoveries += 1;
+                    let snap = snapshot(&spec, &coll, &uni).await;
+                    evaluations += 1 + uni.len();
+                    // the recovered documents are the reference: U and C must hold for them
+                    let mut copy: BTreeMap<u64, Fields> = BTreeMap::new();
+                    for (id, vals) in &snap.docs {
+                        let f: Fields = spec.fields.iter().zip(vals.iter()).filter(|(_, v)| **v != V::Null).map(|(fs, v)| (fs.name.to_string(), v.clone())).collect();
+                        if !versions.get(id).map(|vs| vs.contains(vals)).unwrap_or(false) {
+                            bad.push(format!("crash-recovered-unknown-document: id {id} = {vals:?} is no version this history wrote"));
+                        }
+                        copy.insert(*id, f);
+                    }
+                    for b in check_snapshot(&spec, &uni, &snap, &copy, false) {
+                        let cls = if b.starts_with("U:") { "crash-duplicate-unique-owner" } else { "crash-index-diverged-from-documents" };
+                        bad.push(format!("{cls}: {b}"));
+                    }
+                    // no two recovered documents share a key of a unique index (read off the documents themselves)
+                    for j in 0..spec.indexes.len() {
+                        if !spec.is_unique(j) { continue; }
+                        let mut seen: BTreeMap<Key, u64> = BTreeMap::new();
+                        for (id, f) in &copy {
+                            for key in derive(&spec, j, f) {
+                                if let Some(o) = seen.insert(key.clone(), *id) {
+                                    bad.push(format!("crash-duplicate-unique-owner: documents {o} and {id} both hold {key:?} of unique index {:?} after recovery", spec.indexes[j]));
+                                }
+                            }
+                        }
+                    }
+                    // the recovered handle accepts a fresh write
+                    let mut f = Fields::new();
+                    f.insert("email".into(), V::Text("after-crash".into()));
+                    f.insert("a".into(), V::Int(4242));
+                    if !matches!(apply(&coll, &Op::Add(f)).await, Res::Id(_)) {
+                        bad.push("crash-recovered-handle-rejects-fresh-write: add of unused unique values failed after recovery".into());
+                    }
+                    let _ = db.close().await;
+                }
+                Ok(Err(e)) => bad.push(format!("crash-reopen-failed: {e:?}")),
+                Err(_) => bad.push("crash-reopen-failed: panic".into()),
+            }
+            if !bad.is_empty() {
+                n_fail += 1;
+                if failures.len() < 5 {
+                    failures.push(json!({"what": bad[0], "all": bad.iter().take(6).collect::<Vec<_>>(), "case": case, "crash_after_mutations": k,
+                        "indexes_in_creation_order": spec.indexes, "history": trace}));
+                }
+            }
+        }
+    }
+    let summary = json!({"kind": "summary", "cases": cases, "evaluations": evaluations, "oracle_failures": n_fail, "failures": failures,
+        "recoveries": recoveries, "crash_points_in_histories": total_points});
+    writeln!(out, "{summary}").unwrap();
+}
+
+// ------------------------------------------------------------------------------------------ systematic interleavings
+/// One run of `ops` as concurrent tasks over a parked backend, following `schedule` (choice index at every decision
+/// point, 0 beyond its end). Returns the number of options seen at every decision point, the results and the findings.
+async fn sys_run(spec: &Spec, pre: &[Fields], ops: &[Op], schedule: &[usize]) -> (Vec<usize>, Vec<Res>, Vec<String>) {
+    let sched = Arc::new(Sched::default());
+    let store: Arc<dyn ObjectStore> = Arc::new(YieldStore {
+        inner: Arc::new(InMemory::new()), rng: Arc::new(Mutex::new(Rng::new(1))), max_yields: 0, park: Some(sched.clone()),
+    });
+    let (db, coll) = new_collection(spec, store).await;
+    let mut copy: BTreeMap<u64, Fields> = BTreeMap::new();
+    for f in pre {
+        if let Res::Id(id) = apply(&coll, &Op::Add(f.clone())).await {
+            copy.insert(id, f.clone());
+        }
+    }
+    let n = ops.len();
+    let results: Arc<Mutex<Vec<Option<Res>>>> = Arc::new(Mutex::new(vec![None; n]));
+    for (i, op) in ops.iter().cloned().enumerate() {
+        let coll = coll.clone();
+        let results = results.clone();
+        tokio::spawn(TASK_ID.scope(i, async move {
+            let r = apply(&coll, &op).await;
+            results.lock().unwrap()[i] = Some(r);
+        }));
+    }
+    let mut options = Vec::new();
+    let mut bad = Vec::new();
+    loop {
+        // run until every contender is parked at a backend call, blocked behind a parked one, or finished
+        let mut last = (usize::MAX, usize::MAX);
+        let mut stable = 0;
+        loop {
+            tokio::task::yield_now().await;
+            let cur = (sched.parked().len(), results.lock().unwrap().iter().filter(|r| r.is_some()).count());
+            if cur == last { stable += 1; } else { stable = 0; last = cur; }
+            if cur.0 + cur.1 == n || stable >= 40 { break; }
+        }
+        let done = results.lock().unwrap().iter().filter(|r| r.is_some()).count();
+        if done == n { break; }
+        let parked = sched.parked();
+        if parked.is_empty() {
+            bad.push("sys-stuck: contenders neither finished nor waiting for the backend".to_string());
+            break;
+        }
+        let d = options.len();
+        let c = schedule.get(d).cloned().unwrap_or(0).min(parked.len() - 1);
+        options.push(parked.len());
+        sched.release(parked[c]);
+    }
+    let res: Vec<Res> = results.lock().unwrap().iter().map(|r| r.clone().unwrap_or(Res::Err("EStuck"))).collect();
+    for (op, r) in ops.iter().zip(res.iter()) {
+        apply_copy(&mut copy, op, r);
+    }
+    let mut uni = universe(spec);
+    for (j, fs) in spec.indexes.iter().enumerate() {
+        for v in ["own0", "own1", "own2", "x0", "x1", "x2"] {
+            if fs.as_slice() == ["tags"] || fs.as_slice() == ["email"] { uni.push((j, Key::S(V::Text(v.to_string())))); }
+        }
+    }
+    let snap = snapshot(spec, &coll, &uni).await;
+    for b in check_snapshot(spec, &uni, &snap, &copy, false) {
+        let cls = if b.starts_with("U:") { "duplicate-unique-owner" } else { "conc-index-diverged-from-documents" };
+        bad.push(format!("{cls}: {b}"));
+    }
+    let _ = db.close().await;
+    (options, res, bad)
+}
+
+/// Every interleaving (at backend-call granularity) of small sets of writers contending for one unique value.
+async fn run_sys(args: &[String], out: &mut dyn Write) {
+    let cap = arg_value(args, "--cap").and_then(|s| s.parse().ok()).unwrap_or(400usize);
+    let spec = Spec {
+        fields: vec![
+            FieldSpec { name: "email", ty: Ty::Text, opt: true, unique: true },
+            FieldSpec { name: "tags", ty: Ty::ArrText, opt: true, unique: true },
+            FieldSpec { name: "a", ty: Ty::Int, opt: false, unique: false },
+            FieldSpec { name: "b", ty: Ty::Text, opt: true, unique: false },
+            FieldSpec { name: "grp", ty: Ty::Int, opt: true, unique: false },
+            FieldSpec { name: "note", ty: Ty::Text, opt: true, unique: false },
+        ],
+        indexes: vec![vec!["grp"], vec!["email"], vec!["a", "b"], vec!["tags"]],
+        aux: false,
+    };
+    let own = |i: usize| -> Fields {
+        [("email".to_string(), V::Text(format!("own{i}"))), ("a".to_string(), V::Int(10 + i as i64)), ("tags".to_string(), V::Arr(vec![format!("own{i}")]))].into()
+    };
+    let add_email = |i: usize| Op::Add([("email".to_string(), V::Text("e1".into())), ("a".to_string(), V::Int(50 + i as i64))].into());
+    let upd_email = |i: usize| Op::Update(1 + i as u64, [("email".to_string(), V::Text("e1".into()))].into());
+    let upd_tags = |i: usize| Op::Update(1 + i as u64, [("tags".to_string(), V::Arr(vec![format!("x{i}"), "t1".to_string()]))].into());
+    let add_tags = |i: usize| Op::Add([("email".to_string(), V::Text(format!("new{i}"))), ("a".to_string(), V::Int(50 + i as i64)), ("tags".to_string(), V::Arr(vec!["t1".to_string()]))].into());
+    let upd_tuple = |i: usize| Op::Update(1 + i as u64, [("a".to_string(), V::Int(1)), ("b".to_string(), V::Text("x".into()))].into());
+    let rem = |i: usize| Op::Remove(1 + i as u64);
+    let scenarios: Vec<(&str, Vec<Op>, usize)> = vec![
+        ("add|add scalar", vec![add_email(0), add_email(1)], 1),
+        ("add|update scalar", vec![add_email(0), upd_email(1)], 1),
+        ("update|update scalar", vec![upd_email(0), upd_email(1)], 1),
+        ("update|update array", vec![upd_tags(0), upd_tags(1)], 1),
+        ("update|add array", vec![upd_tags(0), add_tags(1)], 1),
+        ("update|update tuple", vec![upd_tuple(0), upd_tuple(1)], 1),
+        ("update|add scalar (add runs second)", vec![upd_email(1), add_email(0)], 1),
+        ("add|update array (add runs first)", vec![add_tags(1), upd_tags(0)], 1),
+        ("remove holder|add scalar", vec![rem(0), Op::Add([("email".to_string(), V::Text("own0".into())), ("a".to_string(), V::Int(77))].into())], 0),
+        ("update|remove same doc", vec![upd_email(0), rem(0)], 0),
+        ("update|update|add scalar", vec![upd_email(0), upd_email(1), add_email(2)], 1),
+        ("update|update|update array", vec![upd_tags(0), upd_tags(1), upd_tags(2)], 1),
+    ];
+    let pre: Vec<Fields> = (0..3).map(own).collect();
+    let mut failures: Vec<Value> = Vec::new();
+    let (mut n_fail, mut evaluations) = (0usize, 0usize);
+    let mut counts: BTreeMap<String, Value> = BTreeMap::new();
+    for (name, ops, want_winners) in scenarios {
+        let mut schedule: Vec<usize> = Vec::new();
+        let mut runs = 0usize;
+        let mut exhausted = false;
+        loop {
+            let (options, res, mut bad) = sys_run(&spec, &pre, &ops, &schedule).await;
+            runs += 1;
+            evaluations += 1;
+            let winners = res.iter().filter(|r| !r.rejected()).count();
+            if want_winners > 0 && winners != want_winners {
+                bad.insert(0, format!("winner-count: {winners} writers succeeded for one contested value (expected {want_winners})"));
+            }
+            if !bad.is_empty() {
+                n_fail += 1;
+                if failures.len() < 5 {
+                    failures.push(json!({"what": bad[0], "all": bad.iter().take(6).collect::<Vec<_>>(), "scenario": name,
+                        "schedule_choice_at_each_backend_call": schedule, "contenders": ops.iter().zip(res.iter()).map(|(o, r)| format!("{o:?} => {r:?}")).collect::<Vec<_>>()}));
+                }
+            }
+            // next schedule in depth-first order
+            let mut full: Vec<usize> = (0..options.len()).map(|d| schedule.get(d).cloned().unwrap_or(0).min(options[d] - 1)).collect();
+            loop {
+                match full.pop() {
+                    None => { exhausted = true; break; }
+                    Some(c) => { let d = full.len(); if c + 1 < options[d] { full.push(c + 1); break; } }
+                }
+            }
+            if exhausted || runs >= cap { break; }
+            schedule = full;
+        }
+        counts.insert(name.to_string(), json!({"interleavings": runs, "exhaustive": exhausted}));
+    }
+    let summary = json!({"kind": "summary", "evaluations": evaluations, "oracle_failures": n_fail, "failures": failures, "scenarios": counts});
+    writeln!(out, "{summary}").unwrap();
+}
+
 fn main() {
     let args: Vec<String> = std::env::args().collect();
     let out_path = arg_value(&args, "--out").unwrap_or_else(|| "/dev/stdout".to_string());
@@ -1003,6 +1430,14 @@ fn main() {
             rt.block_on(run_seq(&args, &mut out));
         }
         Some("conc") => run_conc(&args, &mut out),
+        Some("sys") => {
+            let rt = tokio::runtime::Builder::new_current_thread().enable_all().build().unwrap();
+            rt.block_on(run_sys(&args, &mut out));
+        }
+        Some("crash") => {
+            let rt = tokio::runtime::Builder::new_current_thread().enable_all().build().unwrap();
+            rt.block_on(run_crash(&args, &mut out));
+        }
         _ => {
             eprintln!("usage: h_uniq seq|conc --out FILE [--cases N --len L | --rounds N --wide N]");
             std::process::exit(2);
